@@ -318,3 +318,45 @@ fn c16_residual_body<const BS: usize, const WARM: usize, const N: usize>() {
 fn c16_residual_bs2_no_panic() {
     c16_residual_body::<2, 1, 3>();
 }
+
+// ---- XP (temporary experiments) ----
+fn xp_residual_body<const BS: usize, const WARM: usize, const N: usize>(off: usize, maxorder: u8) {
+    let data: [u8; N] = kani::any();
+    if off == 0 {
+        kani::assume((data[0] >> 2) & 15 <= maxorder);
+    }
+    let r = residual::<BitErr>(BS, WARM)((&data[..], off));
+    let mut ok = false;
+    if let Ok((_rest, res)) = r {
+        ok = true;
+        assert!(res.block_size() == BS && res.warmup_length() == WARM);
+    }
+    kani::cover!(ok);
+    kani::cover!(!ok);
+}
+#[kani::proof]
+#[kani::unwind(20)]
+#[kani::stub(crate::arrayutils::find_max, contract_find_max)]
+#[kani::stub(crate::arrayutils::wrapping_sum, contract_wrapping_sum)]
+fn xp_residual_a() {
+    xp_residual_body::<2, 1, 2>(0, 15);
+}
+#[kani::proof]
+#[kani::unwind(20)]
+#[kani::stub(crate::arrayutils::find_max, contract_find_max)]
+#[kani::stub(crate::arrayutils::wrapping_sum, contract_wrapping_sum)]
+fn xp_residual_b() {
+    xp_residual_body::<2, 1, 2>(0, 0);
+}
+#[kani::proof]
+#[kani::unwind(20)]
+#[kani::stub(crate::arrayutils::find_max, contract_find_max)]
+#[kani::stub(crate::arrayutils::wrapping_sum, contract_wrapping_sum)]
+fn xp_residual_c() {
+    xp_residual_body::<2, 1, 3>(0, 1);
+}
+#[kani::proof]
+#[kani::unwind(20)]
+fn xp_residual_d() {
+    xp_residual_body::<2, 1, 2>(0, 0);
+}
